@@ -148,6 +148,10 @@ type c13Input struct {
 	Base   int64  `json:"base"`
 	Limit  int64  `json:"limit"`          // datoshi
 	Pred   int    `json:"pred,omitempty"` // > 0: the run after Reset() uses predecessor Pred-1 alone (else chosen by the script's hash)
+	// kind "load": Script runs Pause instructions, then Script2 is loaded on top (LoadScriptWithHash if WithHash, else LoadScript)
+	Script2  string `json:"script2,omitempty"`
+	Pause    int    `json:"pause,omitempty"`
+	WithHash bool   `json:"with_hash,omitempty"`
 }
 
 // c13Run executes the case on the real VM (twice on fresh VMs, once after Reset() on a used VM) and records it.
@@ -175,7 +179,7 @@ func c13Run(co *caseOut, kind, tag string, in c13Input) {
 	if r1.Halt && in.Limit >= 0 && r1.Gas > in.Limit {
 		co.violation(kind, "HALT with GasConsumed > GasLimit", in, r1)
 	}
-	if len(r1.Stack) > 150000 {
+	if len(r1.Stack) > 30000 {
 		co.extra["x_skipped_large_result"] = fmt.Sprint(co.extra["x_skipped_large_result"], ".")
 		return // result too large to be written as a Coq term; large values are compared through SIZE/EQUAL projections
 	}
@@ -234,6 +238,10 @@ func runC13(args []string) error {
 			if err := json.Unmarshal(c, &x); err != nil {
 				return err
 			}
+			if x.Kind == "load" {
+				c13RunLoad(co, "replay", x.Input)
+				continue
+			}
 			c13Run(co, x.Kind, "replay", x.Input)
 		}
 		return co.finish()
@@ -263,6 +271,10 @@ func runC13(args []string) error {
 			c13Run(co, "reset", "pred-"+q.tag, c13Input{Script: hx(q.script), Base: q.base, Limit: q.limit, Pred: i + 1})
 		}
 	}
+
+	// 0c. slot initialisation more than once (pairs, triples; one context, across CALL; two scripts on one VM)
+	c13SlotCases(co, r, 8*per)
+	c13LoadCases(co)
 
 	// 1. arithmetic / bitwise / comparison, per instruction
 	unary := []opcode.Opcode{opcode.SIGN, opcode.ABS, opcode.NEGATE, opcode.INC, opcode.DEC, opcode.INVERT, opcode.SQRT, opcode.NOT, opcode.NZ}
@@ -679,6 +691,13 @@ func c13StackOps(a *c13Asm, r *rng, lat []*big.Int) {
 	}
 	if r.chance(40) {
 		a.op(opcode.INITSLOT, byte(r.intn(3)), byte(r.intn(3)))
+	}
+	for r.chance(30) { // further initialisations of either group (must fault when the group is initialised already)
+		if r.bool() {
+			a.op(opcode.INITSSLOT, byte(r.intn(3)))
+		} else {
+			a.op(opcode.INITSLOT, byte(r.intn(3)), byte(r.intn(3)))
+		}
 	}
 	ops := []opcode.Opcode{opcode.DEPTH, opcode.DROP, opcode.NIP, opcode.XDROP, opcode.CLEAR, opcode.DUP, opcode.OVER, opcode.PICK, opcode.TUCK,
 		opcode.SWAP, opcode.ROT, opcode.ROLL, opcode.REVERSE3, opcode.REVERSE4, opcode.REVERSEN,
